@@ -726,6 +726,14 @@ class Sym:
                         raise Unsupported(f'loop body that updates a variable of the enclosing scope at line {s.get("ln")}')
                     fall = s2
         except Unsupported as e:
+            if self.apply_functors and 'loop body' in str(e) and (extent is None or extent > 64):
+                # one arbitrary iteration (see std::for_each): the loop is not entered, or its body runs once on some element
+                outs1 = [(pristine.fork(), None)]
+                s1 = pristine.fork()
+                s1.env[('v', s['var']['id'])] = elem
+                for s2, sig2 in self.exec(s['b'], s1):
+                    outs1.append((s2, None if sig2 in ('break', 'continue') else sig2))
+                return outs1
             if extent is None or extent > 64 or 'loop body' not in str(e):
                 raise
             impure = e
